@@ -52,6 +52,10 @@ class SK(object):
         if isinstance(e, ast.Constant):
             return ANY if (e.value is None or (isinstance(e.value, int) and not isinstance(e.value, bool))) else UNK
         if isinstance(e, ast.Name):
+            if e.id not in env and e.id in self.f.mod.assigns and len(self.f.mod.assigns[e.id]) == 1:
+                v0 = self.f.mod.assigns[e.id][0]
+                if isinstance(v0, ast.Constant) and (v0.value is None or (isinstance(v0.value, int) and not isinstance(v0.value, bool))):
+                    return ANY          # a module constant such as _ZERO_ID = 0 is a wildcard id like the literal
             return env.get(e.id, UNK)
         if isinstance(e, ast.Attribute):
             if varkey(e) == self.selfn + "._dict":
